@@ -545,7 +545,33 @@ def eval_sweeper(case):
 # =====================================================================================================
 # clause D: one ParaDiag iteration of the controller is the preconditioned step on the all-at-once system
 # =====================================================================================================
-def make_controller(pb, L, M, alpha, dt, restol, maxiter, avg, hooks):
+class _RestartOnce:
+    """factory of an environment convergence controller: one restart request from a given slot of the block that starts
+    at a given time (the block is then recomputed from the restarted step with an unchanged step size)"""
+
+    @staticmethod
+    def make(slot, t_block):
+        from pySDC.core.convergence_controller import ConvergenceController
+
+        class RestartOnce(ConvergenceController):
+            fired = False
+
+            def setup(self, controller, params, description, **kwargs):
+                return {'control_order': -50, **super().setup(controller, params, description, **kwargs)}
+
+            def determine_restart(self, controller, S, **kwargs):
+                # asked in every check of that step while its block is the one starting at t_block
+                if not RestartOnce.fired and S.status.slot == slot and abs(S.levels[0].status.time - (t_block + slot * S.dt)) < 1e-11:
+                    S.status.restart = True
+
+            def prepare_next_block(self, controller, S, *args, **kwargs):
+                if S.status.slot == slot and S.status.restart:
+                    RestartOnce.fired = True
+
+        return RestartOnce
+
+
+def make_controller(pb, L, M, alpha, dt, restol, maxiter, avg, hooks, restart=None):
     sweeper = 'QDiagonalizationIMEX' if pb['imex'] else 'QDiagonalization'
     desc = {
         'problem_class': pb['cls'],
@@ -555,6 +581,8 @@ def make_controller(pb, L, M, alpha, dt, restol, maxiter, avg, hooks):
         'level_params': {'dt': dt, 'restol': restol},
         'step_params': {'maxiter': maxiter},
     }
+    if restart is not None:
+        desc['convergence_controllers'] = {_RestartOnce.make(*restart): {}}
     cp = {'logger_level': 90, 'hook_class': hooks, 'mssdc_jac': False, 'alpha': alpha, 'average_jacobian': avg, 'dump_setup': False}
     with warnings.catch_warnings():
         warnings.simplefilter('ignore')
@@ -702,7 +730,8 @@ def eval_run(case):
     d = O.factors(L, alpha)
     singular = bool(np.any(1.0 + d == 0))
     try:
-        ctrl, _ = make_controller(pb, L, M, alpha, dt, restol, maxiter, avg, [LogSolution])
+        rst = case.get('restart')
+        ctrl, _ = make_controller(pb, L, M, alpha, dt, restol, maxiter, avg, [LogSolution], restart=None if rst is None else (int(rst[0]), t0 + int(rst[1]) * L * dt))
     except HarnessError:
         raise
     except Exception as e:  # noqa: BLE001
@@ -740,12 +769,17 @@ def eval_run(case):
         return res
     res['classes']['converged'] += 1
 
-    ref = O.sequential(Q, nodes, dt, pb['A_full'], u0v, t0, L * nblocks, pb['forcing'])
+    nsteps_total = L * nblocks
+    if case.get('restart') is not None and us:
+        # a restart from a later slot shifts the block grid: the run ends where its last block ends (the controller
+        # always computes whole blocks), which is what the reference is stepped to
+        nsteps_total = max(nsteps_total, int(round((max(t for t, _ in us) - t0) / dt)))
+    ref = O.sequential(Q, nodes, dt, pb['A_full'], u0v, t0, nsteps_total, pb['forcing'])
     umax = max(float(np.abs(r).max()) for r in ref + [u0v])
     Kmax = max(K['K_C'], K['K_next'])
     tols = []
     tprev = 0.0
-    for b in range(nblocks):
+    for b in range(-(-nsteps_total // L) + 1):
         tb = C_R * Kmax * restol + K['K_ic'] * tprev + C_E * EPS * K['condC'] * umax
         tols.append(tb)
         tprev = tb
@@ -754,7 +788,7 @@ def eval_run(case):
     first_bad = None
     for t, u in us:
         k = int(round((t - t0) / dt))
-        if k < 1 or k > L * nblocks or abs(t - (t0 + k * dt)) > 8 * EPS * max(abs(Tend), 1.0):
+        if k < 1 or k > nsteps_total or abs(t - (t0 + k * dt)) > 8 * EPS * max(abs(Tend), 1.0):
             res['classes']['logged_u_at_unexpected_time'] += 1
             continue
         matched += 1
@@ -776,7 +810,7 @@ def eval_run(case):
     res['classes']['step_values_compared'] += matched
     res['worst']['run_values'] = worst
     # ---- a second run() on the same controller, continued from the value and time it returned -----------------------
-    if not res['viol'] and np.all(np.isfinite(got)):
+    if not res['viol'] and np.all(np.isfinite(got)) and case.get('restart') is None:
         Tend2 = Tend + L * dt * nblocks
         try:
             with warnings.catch_warnings():
@@ -856,6 +890,13 @@ def run_cases(tier, r):
                         # to the next block is complex either way
                         for uu in ((u0, u0r) if pk.startswith('dahlquist') else (u0r,)):
                             out.append({'clause': 'run', 'spec': specs[pk], 'L': L, 'M': M, 'alpha': a, 'dt': dt, 't0': t0, 'nblocks': nb, 'avg': avg, 'restol': 1e-12, 'maxiter': maxiter, 'u0': uu})
+    # one restart request from every slot of the first and of the second block (unchanged step size: the recomputed
+    # run has to give the same values as sequential stepping)
+    for pk in ('dahlquist3', 'dahlquist_imex3'):
+        for L in ((2, 4) if tier == 'quick' else (1, 2, 3, 4)):
+            for slot in range(L):
+                for blk in (0, 1):
+                    out.append({'clause': 'run', 'spec': specs[pk], 'L': L, 'M': 2, 'alpha': 1e-3, 'dt': 1.0 / 16, 't0': 0.25, 'nblocks': 3, 'avg': True, 'restol': 1e-12, 'maxiter': maxiter, 'u0': u0, 'restart': [slot, blk]})
     # time windows that lie entirely on the negative axis, and one that ends exactly at 0 (sign handling of the end test)
     for pk in ('dahlquist3', 'dahlquist_imex3', 'heat8'):
         for L in ((2, 4) if tier == 'quick' else (1, 2, 3, 4, 8)):
